@@ -17,9 +17,17 @@ import (
 	"capnproto.org/go/capnp/v3"
 	"capnproto.org/go/capnp/v3/rpc"
 	"github.com/go-kit/log"
+	"crypto/sha256"
+
+	"github.com/prometheus/client_golang/prometheus"
+	"github.com/prometheus/prometheus/model/exemplar"
 	"github.com/prometheus/prometheus/model/histogram"
 	"github.com/prometheus/prometheus/model/labels"
+	"github.com/prometheus/prometheus/model/metadata"
 	"github.com/prometheus/prometheus/model/value"
+	"github.com/prometheus/prometheus/storage"
+
+	"github.com/thanos-io/thanos/pkg/receive"
 
 	"github.com/thanos-io/thanos/pkg/receive/writecapnp"
 	"github.com/thanos-io/thanos/pkg/store/labelpb"
@@ -185,10 +193,20 @@ func fbits(f float64) string { return fmt.Sprintf("%016x", math.Float64bits(f)) 
 func istr(i int64) string    { return strconv.FormatInt(i, 10) }
 func ustr(u uint64) string   { return strconv.FormatUint(u, 10) }
 
+// short logs a long string as its length and digest (trace lines stay small; equality is preserved
+// up to sha256 collisions).
+func short(s string) string {
+	if len(s) <= 256 {
+		return strings.Clone(s)
+	}
+	sum := sha256.Sum256([]byte(s))
+	return fmt.Sprintf("<%d bytes, sha256 %x>", len(s), sum[:12])
+}
+
 func dumpLabels(ls labels.Labels) []any {
 	out := []any{}
 	ls.Range(func(l labels.Label) {
-		out = append(out, map[string]any{"n": strings.Clone(l.Name), "v": strings.Clone(l.Value)})
+		out = append(out, map[string]any{"n": short(l.Name), "v": short(l.Value)})
 	})
 	return out
 }
@@ -456,6 +474,181 @@ func (r *rpcRig) send(name string, in *storepb.WriteRequest) (res map[string]any
 	return map[string]any{"path": name, "err": errStr(r.peer.err), "tenants": ts}
 }
 
+
+// ---------------------------------------------------------------------------------------------
+// end to end: the receiver's real Cap'n Proto server / handler / writer against the protobuf writer
+
+// recStorage is a receive.TenantStorage whose appenders record what they are given, per tenant, as
+// series records in decoded form (a new record starts whenever the label set changes).
+type recStorage struct {
+	mu      sync.Mutex
+	tenants []any
+}
+
+func (s *recStorage) reset() { s.mu.Lock(); s.tenants = nil; s.mu.Unlock() }
+func (s *recStorage) snapshot() []any {
+	s.mu.Lock()
+	defer s.mu.Unlock()
+	if s.tenants == nil {
+		return []any{}
+	}
+	return s.tenants
+}
+
+func (s *recStorage) TenantAppendable(tenant string) (receive.Appendable, error) {
+	return &recAppendable{s: s, tenant: tenant}, nil
+}
+
+type recAppendable struct {
+	s      *recStorage
+	tenant string
+}
+
+func (a *recAppendable) Appender(context.Context) (storage.Appender, error) {
+	return &recAppender{s: a.s, tenant: strings.Clone(a.tenant)}, nil
+}
+
+type recAppender struct {
+	s      *recStorage
+	tenant string
+	series []any
+	last   string
+	cur    map[string]any
+}
+
+func (a *recAppender) rec(l labels.Labels) map[string]any {
+	k := l.String()
+	if a.cur == nil || k != a.last {
+		a.cur = map[string]any{"labels": dumpLabels(l), "samples": []any{}, "hists": []any{}, "exemplars": []any{}}
+		a.series = append(a.series, a.cur)
+		a.last = k
+	}
+	return a.cur
+}
+
+func (a *recAppender) GetRef(labels.Labels, uint64) (storage.SeriesRef, labels.Labels) {
+	return 0, labels.EmptyLabels()
+}
+func (a *recAppender) Append(_ storage.SeriesRef, l labels.Labels, t int64, v float64) (storage.SeriesRef, error) {
+	r := a.rec(l)
+	r["samples"] = append(r["samples"].([]any), map[string]any{"t": istr(t), "v": fbits(v)})
+	return 1, nil
+}
+func (a *recAppender) AppendHistogram(_ storage.SeriesRef, l labels.Labels, t int64, h *histogram.Histogram, fh *histogram.FloatHistogram) (storage.SeriesRef, error) {
+	r := a.rec(l)
+	r["hists"] = append(r["hists"].([]any), dumpHist(t, h, fh))
+	return 1, nil
+}
+func (a *recAppender) AppendExemplar(_ storage.SeriesRef, l labels.Labels, e exemplar.Exemplar) (storage.SeriesRef, error) {
+	r := a.rec(l)
+	r["exemplars"] = append(r["exemplars"].([]any), map[string]any{"labels": dumpLabels(e.Labels), "value": fbits(e.Value), "ts": istr(e.Ts)})
+	return 1, nil
+}
+func (a *recAppender) AppendHistogramSTZeroSample(storage.SeriesRef, labels.Labels, int64, int64, *histogram.Histogram, *histogram.FloatHistogram) (storage.SeriesRef, error) {
+	return 1, nil
+}
+func (a *recAppender) AppendSTZeroSample(storage.SeriesRef, labels.Labels, int64, int64) (storage.SeriesRef, error) {
+	return 1, nil
+}
+func (a *recAppender) UpdateMetadata(storage.SeriesRef, labels.Labels, metadata.Metadata) (storage.SeriesRef, error) {
+	return 1, nil
+}
+func (a *recAppender) SetOptions(*storage.AppendOptions) {}
+func (a *recAppender) Rollback() error                   { return nil }
+func (a *recAppender) Commit() error {
+	series := a.series
+	if series == nil {
+		series = []any{}
+	}
+	a.s.mu.Lock()
+	a.s.tenants = append(a.s.tenants, map[string]any{"tenant": a.tenant, "series": series})
+	a.s.mu.Unlock()
+	return nil
+}
+
+// e2eRig: receive.NewCapNProtoServer + CapNProtoHandler + CapNProtoWriter on a loopback listener,
+// fed by the real RemoteWriteClient; and receive.NewWriter (protobuf replication path) as the
+// reference, both writing into recording tenant storages.
+type e2eRig struct {
+	ln       net.Listener
+	srv      *receive.CapNProtoServer
+	client   *writecapnp.RemoteWriteClient
+	capStore *recStorage
+	pbStore  *recStorage
+	pbWriter *receive.Writer
+}
+
+func newE2E(t *testing.T) *e2eRig {
+	ln, err := net.Listen("tcp", "127.0.0.1:0")
+	if err != nil {
+		t.Fatalf("listen: %v", err)
+	}
+	r := &e2eRig{ln: ln, capStore: &recStorage{}, pbStore: &recStorage{}}
+	logger := log.NewNopLogger()
+	r.srv = receive.NewCapNProtoServer(ln, receive.NewCapNProtoHandler(prometheus.NewRegistry(), logger, receive.NewCapNProtoWriter(logger, r.capStore, nil)), logger)
+	go func() { _ = r.srv.ListenAndServe() }()
+	r.client = writecapnp.NewRemoteWriteClient(writecapnp.NewTCPDialer(ln.Addr().String()), logger)
+	r.pbWriter = receive.NewWriter(logger, r.pbStore, nil)
+	return r
+}
+
+func (r *e2eRig) close() { _ = r.client.Close(); _ = r.ln.Close() }
+
+// run sends the request through both replication paths; returns the protobuf writer's appends
+// (the reference) and the Cap'n Proto peer's appends.
+func (r *e2eRig) run(req []storepb.TimeSeriesTenantTuple) (want2 []any, got map[string]any) {
+	r.capStore.reset()
+	r.pbStore.reset()
+	pbErr := ""
+	for _, tt := range req {
+		// the protobuf writer re-allocates exemplar label strings in place: give it its own copy
+		cp := make([]prompb.TimeSeries, len(tt.Timeseries))
+		for i, ts := range tt.Timeseries {
+			cp[i] = ts
+			cp[i].Exemplars = append([]prompb.Exemplar(nil), ts.Exemplars...)
+			for j := range cp[i].Exemplars {
+				cp[i].Exemplars[j].Labels = append([]labelpb.ZLabel(nil), ts.Exemplars[j].Labels...)
+			}
+		}
+		if err := r.pbWriter.Write(context.Background(), tt.Tenant, cp); err != nil {
+			pbErr = "protobuf writer: " + err.Error()
+		}
+	}
+	want2 = r.pbStore.snapshot()
+	ctx, cancel := context.WithTimeout(context.Background(), 120*time.Second)
+	defer cancel()
+	errS := ""
+	func() {
+		defer func() {
+			if p := recover(); p != nil {
+				errS = fmt.Sprintf("encode panic: %v", p)
+				r.client = writecapnp.NewRemoteWriteClient(writecapnp.NewTCPDialer(r.ln.Addr().String()), log.NewNopLogger())
+			}
+		}()
+		if _, err := r.client.RemoteWrite(ctx, &storepb.WriteRequest{TimeseriesTenantData: req}); err != nil && pbErr == "" {
+			errS = "capnp replication failed where protobuf replication succeeded: " + err.Error()
+		}
+	}()
+	return want2, map[string]any{"path": "e2e-capnp-server", "ref": "proto-writer", "err": errS, "tenants": r.capStore.snapshot()}
+}
+
+// exemplarLabelsValid: the two writers treat exemplar label sets differently outside this domain
+// (the Cap'n Proto writer validates and normalises them, the protobuf writer does not), which is
+// not a matter of the encoding; the end-to-end comparison is restricted to requests whose exemplar
+// label sets are non-empty, sorted, duplicate-free and without empty strings.
+func exemplarLabelsValid(req []storepb.TimeSeriesTenantTuple) bool {
+	for _, tt := range req {
+		for _, ts := range tt.Timeseries {
+			for _, e := range ts.Exemplars {
+				if labelpb.ValidateLabels(e.Labels) != nil {
+					return false
+				}
+			}
+		}
+	}
+	return true
+}
+
 // ---------------------------------------------------------------------------------------------
 
 func hasCustomValues(c vt.Case) bool {
@@ -475,6 +668,8 @@ func TestC25(t *testing.T) {
 	rnd := vt.Rand()
 	rig := newRig(t)
 	defer rig.close()
+	e2e := newE2E(t)
+	defer e2e.close()
 	gen := func(yield func(vt.Case)) {
 		for _, c := range vt.TLCCases(t) {
 			c["src"] = "tlc"
@@ -484,6 +679,14 @@ func TestC25(t *testing.T) {
 		n := vt.Pick(150, 800)
 		for i := 0; i < n; i++ {
 			yield(randomRequest(rnd, i))
+		}
+		// well-formed requests (what a router really forwards) for the end-to-end comparison, some large
+		n = vt.Pick(60, 300)
+		for i := 0; i < n; i++ {
+			yield(validRequest(rnd, i, "normal"))
+		}
+		for i, kind := range vt.Pick([]string{"longvalue", "manyseries"}, []string{"longvalue", "manyseries", "manysymbols", "longvalue", "manyseries", "manysymbols"}) {
+			yield(validRequest(rnd, i, kind))
 		}
 	}
 	kf := func(c vt.Case) string {
@@ -507,7 +710,18 @@ func TestC25(t *testing.T) {
 		if len(req) == 1 && len(req[0].Timeseries) > 0 {
 			got = append(got, rig.send("rpc-single", &storepb.WriteRequest{Tenant: req[0].Tenant, Timeseries: req[0].Timeseries}))
 		}
-		return vt.Event{"want": want, "got": got}
+		want2 := []any{}
+		if len(req) > 0 && exemplarLabelsValid(req) {
+			var g map[string]any
+			want2, g = e2e.run(req)
+			got = append(got, g)
+		}
+		for _, g := range got {
+			if m := g.(map[string]any); m["ref"] == nil {
+				m["ref"] = "decoded"
+			}
+		}
+		return vt.Event{"want": want, "want2": want2, "got": got}
 	})
 }
 
@@ -648,4 +862,69 @@ func randomRequest(r *rand.Rand, i int) vt.Case {
 	}
 	c["model"] = nstr <= 40 && maxlen <= 24
 	return c
+}
+
+// validRequest: sorted, duplicate-free, non-empty label sets (series and exemplars), 1..3 tenants
+// sharing symbols. kind "longvalue": label values of 70 KiB..200 KiB; "manyseries": thousands of
+// series; "manysymbols": tens of thousands of distinct symbols.
+func validRequest(r *rand.Rand, i int, kind string) vt.Case {
+	names := []string{"__name__", "cluster", "instance", "job", "le", "namespace", "pod", "quantile", "zone", "ünï"}
+	vals := []string{"up", "http_requests_total", "prometheus", "thanos", "eu-west-1", "10.0.0.1:9090", "0.99", "日本", "a", "ab"}
+	sorted := func(n int, distinct func() string) []any {
+		idx := r.Perm(len(names))[:n]
+		for a := 0; a < len(idx); a++ { // sort the chosen names bytewise
+			for b := a + 1; b < len(idx); b++ {
+				if names[idx[b]] < names[idx[a]] {
+					idx[a], idx[b] = idx[b], idx[a]
+				}
+			}
+		}
+		out := []any{}
+		for _, k := range idx {
+			v := pick(r, vals)
+			if distinct != nil && r.Intn(3) == 0 {
+				v = distinct()
+			}
+			out = append(out, map[string]any{"n": names[k], "v": v}) // plain strings: the model does not read these requests
+		}
+		return out
+	}
+	nt := 1 + r.Intn(3)
+	nseries := func() int { return 1 + r.Intn(6) }
+	var distinct func() string
+	custom := kind == "normal" && i%12 == 11
+	switch kind {
+	case "longvalue":
+		distinct = func() string { return strings.Repeat(pick(r, vals), 1)[:1] + strings.Repeat("x", 70000+r.Intn(vt.Pick(10000, 130000))) }
+		nseries = func() int { return 1 + r.Intn(2) }
+	case "manyseries":
+		nseries = func() int { return vt.Pick(300, 1500) + r.Intn(vt.Pick(100, 1500)) }
+		distinct = func() string { return "v" + strconv.Itoa(r.Intn(200)) }
+	case "manysymbols":
+		nseries = func() int { return 2000 + r.Intn(1000) }
+		distinct = func() string { return "sym" + strconv.Itoa(r.Int()) }
+	default:
+		distinct = func() string { return "v" + strconv.Itoa(r.Intn(30)) }
+	}
+	req := []any{}
+	for t := 0; t < nt; t++ {
+		series := []any{}
+		for k, n := 0, nseries(); k < n; k++ {
+			samples := []any{}
+			for j, m := 0, 1+r.Intn(3); j < m; j++ {
+				samples = append(samples, map[string]any{"t": strconv.Itoa(1700000000000 + 15000*j), "v": pick(r, floatToks)})
+			}
+			hists := []any{}
+			if r.Intn(4) == 0 && kind != "manysymbols" {
+				hists = append(hists, randHist(r, custom))
+			}
+			exs := []any{}
+			if r.Intn(3) == 0 {
+				exs = append(exs, map[string]any{"labels": sorted(1+r.Intn(2), distinct), "value": pick(r, floatToks), "ts": strconv.Itoa(1700000000000 + r.Intn(1000))})
+			}
+			series = append(series, map[string]any{"labels": sorted(2+r.Intn(5), distinct), "samples": samples, "hists": hists, "exemplars": exs})
+		}
+		req = append(req, map[string]any{"tenant": []string{"default-tenant", "t1", "ténant", "a"}[r.Intn(4)] + strconv.Itoa(t), "series": series})
+	}
+	return vt.Case{"req": req, "src": "valid-" + kind, "model": false}
 }
